@@ -61,6 +61,8 @@ impl StorageFault {
                 "hi_next_up" => "storage_hi_next_up",
                 "hi_next_down" => "storage_hi_next_down",
                 "random_word" => "storage_random_word",
+                "lattice_hi" => "storage_lattice_hi",
+                "lattice_lo" => "storage_lattice_lo",
                 "duplicate_with_other_word" => "storage_duplicate_with_other_word",
                 _ => "storage_set_word_other",
             },
